@@ -158,7 +158,7 @@ Qed.
 Theorem C10_same_checkers_sound :
   (forall a b tol, qlist_close_abs a b tol = true -> Forall2 (fun x y => (Qabs.Qabs (x - y) <= tol)%Q) a b)
   /\ (forall a b tol, sky_list_same a b tol = true ->
-        Forall2 (fun p q => (Qabs.Qabs (snd p - snd q) <= tol /                             lon_wrap_abs (fst p - fst q) * lon_weight (snd p) <= tol)%Q) a b).
+        Forall2 (fun p q => (Qabs.Qabs (snd p - snd q) <= tol /\ lon_wrap_abs (fst p - fst q) * lon_weight (snd p) <= tol)%Q) a b).
 Proof. split; [exact qlist_close_abs_sound|exact sky_list_same_sound]. Qed.
 
 (* Non-vacuity: concrete distorted headers meet the hypotheses used above. *)
